@@ -19,6 +19,8 @@
 //   life random <histories> <steps> <seed> <N> <report.ndjson> <trace.ndjson> <mode: sync|async>
 //        code -> spec.  Seeded random histories of driver steps (scripted actions inside callbacks included); same monitor; the executed steps with the
 //        observed callbacks / results / snapshots are written as a trace that TLC validates against LifeImpl (LifeTrace.tla), one line per call.
+//   life fdreuse       directed, informational case of the descriptor-number-reuse finding (see FdReuse() below)
+//   life show <file>   debugging aid: executes the driver steps of each input line and prints what was observed (LIFE_NO_UNIQ=1: kernel's descriptor numbers)
 //   life probe         prints how a non-blocking connect to a listening / a refusing loopback port completes on this machine ({"up":"sync"|"async","down":...})
 #include "reflector/ReflectServer.h"
 #include "reflector/AbstractReflectSession.h"
@@ -110,6 +112,7 @@ struct World {
    int  EofState(Conn & c);
 };
 static World * W = NULL;
+static bool g_kernelNumbers = false;    // LIFE_NO_UNIQ=1 / the directed case: leave the descriptor numbers to the kernel
 
 // ReflectServer::HandleEvents() asks the multiplexer about a socket by its descriptor NUMBER; a socket created in the middle of an iteration that gets the
 // number of one closed earlier in the same iteration would inherit that one's answer (a matter of the kernel's numbering, outside the specification: see the
@@ -117,7 +120,7 @@ static World * W = NULL;
 // socket, same non-blocking flag, a connect in progress goes on).
 static ConstSocketRef Uniq(const ConstSocketRef & s)
 {
-   if ((s.GetFileDescriptor() < 0)||(getenv("LIFE_NO_UNIQ"))) return s;
+   if ((s.GetFileDescriptor() < 0)||(g_kernelNumbers)) return s;
    const int fd = fcntl(s.GetFileDescriptor(), F_DUPFD, W->nextFd);
    if (fd < 0) {fprintf(stderr, "F_DUPFD failed (errno %d)\n", errno); exit(10);}
    W->nextFd = fd+1;
@@ -736,6 +739,28 @@ static int Show(int argc, char ** argv)
    return 0;
 }
 
+// ---------------------------------------------------------------------------------------------------------- directed case: descriptor-number reuse (informational)
+// s1's asynchronous connect is refused; in the same iteration s2 (later in the table) calls Reconnect() from its Pulse() towards a listener whose accept queue is
+// full (the connect stays in progress).  Documented (Reconnect()): "the connection result will be reported back later, either via a call to AsyncConnectCompleted()
+// (if the connection succeeds) or a call to ClientConnectionClosed() (if the connection fails)".  With the kernel's numbering s2's new socket gets the number of s1's
+// socket, closed a moment before, HandleEvents() takes the multiplexer's answer about THAT socket for s2's and reports the connect in progress as failed.
+static int FdReuse()
+{
+   int counts[2] = {0, 0};
+   for (int k=0; k<2; k++)
+   {
+      g_kernelNumbers = (k == 1);
+      World w(3); W = &w;
+      const char * steps[] = {"{\"a\":\"AddConn\",\"s\":1,\"ok\":1,\"ccc\":\"B\",\"ds\":0,\"dest\":\"down\",\"ard\":0}", "{\"a\":\"AddDorm\",\"s\":2,\"ok\":1,\"ccc\":\"F\",\"ds\":0,\"dest\":\"hole\",\"ard\":0}",
+                              "{\"a\":\"Arm\",\"s\":2,\"cb\":\"Pulse\",\"act\":\"Reco\",\"t\":2}", "{\"a\":\"Wp\",\"s\":2}", "{\"a\":\"Pump\"}", "{\"a\":\"Pump\"}"};
+      for (size_t i=0; i<6; i++) {J st; (void) mj::Parse(steps[i], st); const J got = Exec(st); for (size_t e=0; e<got["ev"].size(); e++) if ((got["ev"][e]["c"].str() == "CCC")&&(got["ev"][e]["s"].i() == 2)) counts[k]++;}
+      FinishWorld(false); W = NULL;
+   }
+   g_kernelNumbers = false;
+   printf("{\"ccc_of_the_reconnecting_session_with_unique_numbers\":%d,\"with_the_kernels_numbers\":%d}\n", counts[0], counts[1]);
+   return 0;
+}
+
 // ---------------------------------------------------------------------------------------------------------- probe
 static int Probe()
 {
@@ -759,12 +784,14 @@ int main(int argc, char ** argv)
    signal(SIGALRM, OnAlarm); signal(SIGPROF, OnAlarm); signal(SIGPIPE, SIG_IGN);
    if (getenv("LIFE_WATCHDOG")) g_watchdogSecs = (unsigned) atoi(getenv("LIFE_WATCHDOG"));
    SetStage("starting");
+   if (getenv("LIFE_NO_UNIQ")) g_kernelNumbers = true;
    const std::string mode = (argc > 1) ? argv[1] : "";
    int rc = -1;
    if (mode == "probe")  rc = Probe();
    if (mode == "replay") rc = Replay(argc, argv);
    if (mode == "random") rc = Random(argc, argv);
    if (mode == "show")   rc = Show(argc, argv);
+   if (mode == "fdreuse") {g_repFd = 2; rc = FdReuse();}
    if (rc >= 0) {fflush(NULL); return rc;}
    fprintf(stderr, "usage: life replay|random|probe ...\n"); return 2;
 }
